@@ -281,6 +281,22 @@ func history01(r *rand.Rand, hist map[string]int) (string, any, string, bool, st
 
 	var emitted []*packet.Packet
 	w.AddInboundHook(packet.HookFunc(func(p *packet.Packet) { emitted = append(emitted, p) }))
+	taken, takeFail := 0, ""
+	takeSome := func(k int) { // the requester takes up to k of the responses queued for it, in order
+		for ; k > 0 && taken < len(emitted) && takeFail == ""; k-- {
+			select {
+			case q, ok := <-w.Receive():
+				if !ok {
+					takeFail = fmt.Sprintf("Receive() closed with response %d of %d still owed", taken, len(emitted))
+				} else if q != emitted[taken] {
+					takeFail = fmt.Sprintf("response %d read from Receive() is not the packet the writer queued at that position", taken)
+				}
+			case <-time.After(3 * time.Second):
+				takeFail = fmt.Sprintf("response %d of %d never came out of Receive()", taken, len(emitted))
+			}
+			taken++
+		}
+	}
 	readers := make([]*packet.Reader, nr)
 	inboxes := make([][]string, nr)
 	for i := range readers {
@@ -577,6 +593,11 @@ func history01(r *rand.Rand, hist map[string]int) (string, any, string, bool, st
 		}
 		steps = append(steps, fmt.Sprintf("(%s, %s)", opG, res))
 		input = append(input, opS)
+		// the requester collects some of what is waiting for it at arbitrary points (so that responses queue up
+		// behind a partly emptied queue), and the rest at the end
+		if takeFail == "" && r.Intn(3) == 0 {
+			takeSome(1 + r.Intn(2))
+		}
 	}
 	_ = wclosed
 	// observed response stream (synchronous inbound hook) and, when the writer is still open, the pump's output
@@ -591,20 +612,9 @@ func history01(r *rand.Rand, hist map[string]int) (string, any, string, bool, st
 	if fail == "" {
 		fail = ledFail
 	}
-	if fail == "" && !wclosed {
-		for i, p := range emitted {
-			select {
-			case q := <-w.Receive():
-				if q != p {
-					fail = fmt.Sprintf("response %d read from Receive() is not the packet the writer queued", i)
-				}
-			case <-time.After(3 * time.Second):
-				fail = fmt.Sprintf("response %d of %d never came out of Receive()", i, len(emitted))
-			}
-			if fail != "" {
-				break
-			}
-		}
+	if fail == "" {
+		takeSome(len(emitted))
+		fail = takeFail
 	}
 	// requests seen by each reader (inbound hooks, synchronous)
 	var inbox []string
